@@ -51,7 +51,7 @@ def source(cls, kind, kvs):
 
 def model_ops(ops):
     """the model's view: an update is an update whatever the shape of its argument"""
-    return [op[:2] + op[4:] if (op[0] in "UI" and len(op) > 3 and op[3] == "/") else op for op in ops]
+    return [op[:2] + op[4:] if (op[0] in "UIN" and len(op) > 3 and op[3] == "/") else op for op in ops]
 
 
 def run_fd(cls, ops):
@@ -59,12 +59,13 @@ def run_fd(cls, ops):
     out = []
     for op in ops:
         c, arg = op[0], op[2:]
-        kind = "p" if c == "U" else "d"
-        if c in "UI" and len(arg) > 1 and arg[1] == "/":
+        kind = "d" if c == "I" else "p"
+        if c in "UIN" and len(arg) > 1 and arg[1] == "/":
             kind, arg = arg[0], arg[2:]
         try:
             if c == "N":
-                d2 = cls(parse_kvs(arg))
+                # construction from pairs, a dict, keyword arguments, a fixeddict of the same or of ANOTHER type
+                d2 = cls(**dict(parse_kvs(arg))) if kind == "k" else cls(source(cls, kind, parse_kvs(arg)))
                 d = d2
             elif c == "S":
                 (k, v), = parse_kvs(arg)
@@ -120,7 +121,7 @@ def gen_prog(rng, declared):
         if c in "SD":
             ops.append("%s:%s" % (c, kv()))
         elif c == "N":
-            ops.append("%s:%s" % (c, kvs()))
+            ops.append("%s:%s/%s" % (c, rng.choice("pdokfsf"), kvs()))
         elif c in "UI":
             ops.append("%s:%s/%s" % (c, rng.choice("pdogkfsff" if c == "U" else "dofsf"), kvs()))
         else:
@@ -173,7 +174,7 @@ class Prop(object):
         for cls in types():
             declared = list(cls.entry_objs)
             # directed cases first
-            for ops in (["I:bogus=1", "K"], ["U:bogus=1", "K"], ["U:f/bogus=1", "K"], ["I:f/bogus=1", "K"], ["U:k/bogus=1", "K"], ["U:o/zz=1", "K"], ["S:bogus=1", "K"], ["D:bogus=1", "K"], ["N:bogus=1", "K"]):
+            for ops in (["I:bogus=1", "K"], ["U:bogus=1", "K"], ["U:f/bogus=1", "K"], ["I:f/bogus=1", "K"], ["U:k/bogus=1", "K"], ["U:o/zz=1", "K"], ["S:bogus=1", "K"], ["D:bogus=1", "K"], ["N:bogus=1", "K"], ["N:f/bogus=1", "K"], ["N:k/bogus=1", "K"]):
                 why = violates(cls, ops)
                 if why:
                     return {"type": cls.__name__, "ops": ops, "why": why}
